@@ -274,7 +274,7 @@ func concurrent(cfg wl.Config, n int, withCancel bool) *mc.Scenario {
 	return &mc.Scenario{Name: name, Body: body, Check: check, Model: sched.Deviation, NoCache: true}
 }
 
-func plans(tier string) []mc.Plan {
+func basePlans(tier string) []mc.Plan {
 	var ps []mc.Plan
 	firsts := []rpcSpec{
 		{"U", "ok", "echo"}, {"U", "ok", "err"}, {"U", "ok", "early"}, {"U", "ok", "send2"},
@@ -285,8 +285,19 @@ func plans(tier string) []mc.Plan {
 	}
 	victims := []rpcSpec{{"U", "ok", "echo"}, {"S", "drain", "echo"}}
 	cfgs := []wl.Config{{Soft: true, Pipe: tr.Options{Cap: -1}}, {Soft: false, Pipe: tr.Options{Cap: -1}}}
+	tiny := wl.Config{Soft: true, Pipe: tr.Options{Cap: -1}, SplitSize: 3, WriterBuf: 1} // every message is several frames, each its own write
 	if tier == "thorough" {
-		cfgs = append(cfgs, wl.Config{Soft: true, Pipe: tr.Options{Cap: 0}}, wl.Config{Soft: true, Pipe: tr.Options{Cap: -1, ReadMax: 1}, SplitSize: 3, WriterBuf: 1})
+		cfgs = append(cfgs, wl.Config{Soft: true, Pipe: tr.Options{Cap: 0}}, wl.Config{Soft: true, Pipe: tr.Options{Cap: -1, ReadMax: 1}, SplitSize: 3, WriterBuf: 1}, tiny)
+	} else {
+		// a message interrupted between two of its frames when its RPC ends: the leftover frames must
+		// not leak into the next RPC
+		for _, f := range []rpcSpec{{"S", "close", "send2"}, {"S", "cancel", "send2"}, {"S", "close", "recv2"}, {"U", "cancel", "echo"}, {"S", "drain", "err"}} {
+			for _, v := range victims {
+				sc := history(tiny, []rpcSpec{f, v})
+				// (both reference schedules: the reversed one lets the peer run ahead of a preempted sender)
+				ps = append(ps, mc.Plan{Scen: sc, Bounds: []int{0, 1}}, mc.Plan{Scen: sc.Reversed(), Bounds: []int{0, 1}})
+			}
+		}
 	}
 	for _, cfg := range cfgs {
 		for _, f := range firsts {
@@ -322,6 +333,16 @@ func plans(tier string) []mc.Plan {
 		}
 	}
 	return ps
+}
+
+// plans adds, to every scenario, a twin explored relative to the reversed default schedule (a
+// second reference schedule for the deviation bound).
+func plans(tier string) []mc.Plan {
+	ps := basePlans(tier)
+	if tier == "thorough" {
+		return mc.WithReversed(ps, 1)
+	}
+	return mc.WithReversed(ps, -1)
 }
 
 func init() {
